@@ -1147,3 +1147,114 @@ def mecab_ids(ctx):
            if okr else
            "the model.def feature text is split at '/' without removing \"BOS/EOS\" first: the "
            "BOS/EOS lines are split into three parts and never pair with the empty feature")
+
+
+LOSSLESS = ("as_ref", "to_string", "to_owned", "clone", "into", "from", "deref", "borrow", "as_str", "to_str",
+            "new", "index")
+DROPPING = ("take", "skip", "step_by", "filter", "filter_map", "take_while", "skip_while", "nth", "last",
+            "next", "peekable", "dedup", "chunks", "rev", "max", "min", "find", "position", "first")
+
+
+def lexmap_shape(ctx):
+    """LEXMAP (C11): three places where a lexicon row can be altered or lost without touching the
+    parser's columns.
+      * WordMap::new stores each surface as it is (to_string of the item, nothing else);
+      * WordMap::common_prefix_iterator yields every id of a matched posting list (no adaptor
+        that drops elements between `postings.ids(..)` and the returned iterator);
+      * parse_csv skips a row only when the unquoted surface itself is empty (`surface.is_empty()`
+        on the surface string, not on a trimmed or otherwise derived value)."""
+    crate = ctx.facts("A").lib
+    E = Effects(crate)
+    # (1) WordMap::new
+    ps = [q for q in crate.fns if strip_generics(q).endswith("lexicon::map::WordMap::new") and crate.fns[q].body]
+    if len(ps) != 1:
+        raise EngineError("LEXMAP: anchor lost: WordMap::new")
+    fa = E.fa(ps[0])
+    adds = [(b, t) for b, t in fa.calls() if "add_record" in {strip_generics(x).rsplit("::", 1)[-1] for x in callee_paths(t)}]
+    if len(adds) != 1:
+        raise EngineError("LEXMAP: WordMap::new does not call add_record exactly once")
+    b, t = adds[0]
+    chain = []
+    cur = t["args"][1]
+    for _ in range(10):
+        o = fa.origin(cur)
+        if o[0] != "call":
+            break
+        nm = sorted({strip_generics(x).rsplit("::", 1)[-1] for x in callee_paths(o[2])})[0]
+        if nm == "next":
+            break
+        chain.append(nm)
+        if not o[2]["args"]:
+            break
+        cur = o[2]["args"][0]
+    bad = [c for c in chain if c not in LOSSLESS]
+    ctx.ob("LEXMAP", "WordMap::new|surface-stored-verbatim", not bad, fa.loc(b),
+           "the key added to the map is the surface itself (%s)" % " <- ".join(chain) if not bad else
+           "the surface is transformed before it becomes the map key (%s): surfaces with leading or "
+           "trailing spaces, case or width variants no longer match the text" % ", ".join(bad))
+    # (2) common_prefix_iterator: closures of WordMap::common_prefix_iterator
+    base = [q for q in crate.fns if strip_generics(q).endswith("lexicon::map::WordMap::common_prefix_iterator")]
+    cl = [q for q in crate.fns if any(q.startswith(x + "::{closure") for x in base) and crate.fns[q].body]
+    found = False
+    for q in cl + base:
+        cfa = E.fa(q)
+        for cb, ct in cfa.calls():
+            if "ids" not in {strip_generics(x).rsplit("::", 1)[-1] for x in callee_paths(ct)}:
+                continue
+            found = True
+            # everything applied to the result of ids() until it leaves the closure
+            used = []
+            dest = ct["dest"]["l"]
+            frontier = {dest}
+            for _ in range(8):
+                nxt = set()
+                for xb, xt in cfa.calls():
+                    if xt["args"] and op_place(xt["args"][0]) and op_place(xt["args"][0])["l"] in frontier:
+                        used.append(sorted({strip_generics(x).rsplit("::", 1)[-1] for x in callee_paths(xt)})[0])
+                        nxt.add(xt["dest"]["l"])
+                for xb, xi, xs in cfa.stmts():
+                    if "rv" in xs and xs["rv"]["k"] == "use" and op_place(xs["rv"]["op"]) and \
+                            op_place(xs["rv"]["op"])["l"] in frontier and not xs["lhs"]["p"]:
+                        nxt.add(xs["lhs"]["l"])
+                if not nxt - frontier:
+                    break
+                frontier |= nxt
+            drop = [u for u in used if u in DROPPING]
+            ctx.ob("LEXMAP", "WordMap::common_prefix_iterator|all-homographs-yielded", not drop, cfa.loc(cb),
+                   "every id of a matched posting list is yielded (%s)" % (used or ["as is"]) if not drop else
+                   "the ids of a matched posting list pass through %s: homographs after the first are "
+                   "never offered as candidates" % drop)
+    if not found:
+        raise EngineError("LEXMAP: postings.ids(..) not found below WordMap::common_prefix_iterator")
+    # (3) parse_csv: the skip test
+    p = "vibrato::dictionary::lexicon::Lexicon::parse_csv"
+    fa = E.fa(p)
+    tests = []
+    for b, t in fa.calls():
+        if "is_empty" in {strip_generics(x).rsplit("::", 1)[-1] for x in callee_paths(t)} and \
+                "String" in " ".join(callee_paths(t)) + fa.fn.locals[op_place(t["args"][0])["l"]]["ty"]:
+            tests.append((b, t))
+    names = fa.fn.local_names()
+    ok = False
+    why = "no is_empty() test on a String found"
+    for b, t in tests:
+        chain = []
+        cur = t["args"][0]
+        for _ in range(6):
+            o = fa.origin(cur)
+            if o[0] != "call":
+                break
+            chain.append(sorted({strip_generics(x).rsplit("::", 1)[-1] for x in callee_paths(o[2])})[0])
+            cur = o[2]["args"][0] if o[2]["args"] else None
+            if cur is None:
+                break
+        extra = [c for c in chain if c not in ("deref", "as_str", "as_ref", "borrow")]
+        ok = not extra
+        why = "is_empty() is applied to %s" % (" <- ".join(chain) or "the surface string")
+        if ok:
+            break
+    stests = [x for x in tests]
+    ctx.ob("LEXMAP", "parse_csv|skip-only-empty-surface", ok and len(stests) >= 1, "%s:%s" % (fa.fn.file, fa.fn.line),
+           "a row is skipped only when its unquoted surface is the empty string" if ok else
+           "the row-skipping test is not `surface.is_empty()` on the surface itself (%s): surfaces "
+           "made of spaces are dropped" % why)
